@@ -55,6 +55,10 @@ def run(tier):
     st += r.distinct
     tr += r.generated
     nscripts, nsteps = clocks.sc_replay_edges(chk, exe, edges, phases)
+    # the same graph on a SystemClockLoop without reference clock, where the poll that does not read (K) is loop()
+    a, b = clocks.sc_replay_edges(chk, exe, edges, phases, mode='scloop')
+    nscripts += a
+    nsteps += b
     chk.sample({'model_edge': edges[len(edges) // 3]})
     # 4. native sweep of phase x gap pairs against the closed form T + gap div 1000
     if tier == 'quick':
